@@ -4,7 +4,7 @@
 import sys, os
 p = sys.argv[1]
 root = os.environ.get("VERIF_ROOT", "/verif")
-V = {"C22": "q", "C21": "pipe"}
+V = {"C22": "q", "C21": "pipe", "C23": "iter"}
 if os.path.isdir(os.path.join(root, "h/cmd", p.lower())):
     print(p.lower())
 elif p in V:
